@@ -131,19 +131,19 @@ def render_lines(prog, spelling=None, lead=0):
         optl += [("    %s = %s;" % kv, None) for kv in PKG_OPTS]
     if o.get("le"):
         optl.append(("    LittleEndian = %s;" % o["le"], None))
-    elif sp.get("defopts"):
+    elif sp.get("defopts") or sp.get("defopt1") == 1:
         optl.append(("    LittleEndian = false;", None))
     if o.get("sp"):
         optl.append(("    StringPrefixLenType = %s;" % o["sp"], None))
-    elif sp.get("defopts"):
+    elif sp.get("defopts") or sp.get("defopt1") == 2:
         optl.append(("    StringPrefixLenType = u16;", None))
     if o.get("ap"):
         optl.append(("    ArrayPrefixLenType = %s;" % o["ap"], None))
-    elif sp.get("defopts"):
+    elif sp.get("defopts") or sp.get("defopt1") == 3:
         optl.append(("    ArrayPrefixLenType = u16;", None))
     if o.get("padleft"):
         optl.append(("    FixedStringPadFromLeft = %s;" % o["padleft"], None))
-    elif sp.get("defopts"):
+    elif sp.get("defopts") or sp.get("defopt1") == 4:
         optl.append(("    FixedStringPadFromLeft = false;", None))
     if o.get("padchar"):
         optl.append(("    FixedStringPadChar = %s;" % {"0": "'0'", "sp": "' '", "nul": "'\\x00'"}[o["padchar"]], None))
